@@ -39,7 +39,7 @@ def collect():
                 continue
             shutil.copytree(os.path.join(wt, s), dst, ignore=shutil.ignore_patterns('__pycache__', '.cache'))
             print('collected', dst)
-        if found and '--keep' not in sys.argv:
+        if found and '--remove-worktrees' in sys.argv:      # only when the agent that owns the worktree has finished
             sh(['git', '-C', REPO, 'worktree', 'remove', '--force', wt])
             shutil.rmtree('/tmp/%s_work' % d, ignore_errors=True)
 
